@@ -30,6 +30,8 @@ LEVEL_NOTE = 'Trusted: vlib/refpng.py, vlib/reffmt.py, zlib; compress_code for t
 TECHNIQUE = 'Hypothesis-generated carts + constructed boundary sizes; round-trip and differential (independent PNG/stego/:c: decoders) oracles'
 
 AREA = 0x3d00
+# row lengths that divide some distance in 3100..3140 (the compressor's window edge is 3120)
+ROW_LENGTHS = sorted({d for n in range(3100, 3141) for d in range(6, 67) if n % d == 0})
 _compress_cache = {}
 
 
@@ -51,7 +53,7 @@ def _patch_compress():
     compress.compress_code = memo
 
 
-def fits(code, version):
+def fits(code, version, case=None):
     from pico8.game import compress
     if len(code) > 65535:
         return False
@@ -59,7 +61,12 @@ def fits(code, version):
         return True
     if version == 0:
         return False
-    return 8 + len(compress.compress_code(bytes(code))) <= AREA
+    try:
+        n = len(compress.compress_code(bytes(code)))
+    except Exception as e:
+        raise Violation('compress_code raised %r on %d bytes of valid code (cannot even decide whether the cart fits)'
+                        % (e, len(code)), case or {}, 'compress-raises')
+    return 8 + n <= AREA
 
 
 def label_rows_for(seed):
@@ -107,7 +114,7 @@ def check_write(mem, version, code, dest_seed, case):
             rows0 = empty_label_rows()
             before = None
             labs.append('dest_absent')
-        should_fit = fits(code0, version)
+        should_fit = fits(code0, version, case)
         try:
             pfile.to_file(g, path)
             err = None
@@ -173,7 +180,7 @@ def gen_small(seed):
     ch = Choices(seed)
     mem, modes = cartgen.memory_from_choices(ch)
     version = ch.pick([8, 0, 1, 5, 33, 255, ch.below(256)]) if ch.chance(200) else ch.below(256)
-    k = ch.below(7)
+    k = ch.below(8)
     if k == 0:
         code, ck = b'', 'empty'
     elif k == 1:
@@ -193,9 +200,22 @@ def gen_small(seed):
         code = code.replace(b'\x00', b'\x01') + (b'\n' if code and not code.endswith(b'\n') else b'')
         code += b'function _update60()\n x+=1\nend\n' * (1 + ch.below(3)) + [b'', b'\n', b'y=2', b'-- e'][ch.below(4)]
         ck = 'update60'
-    else:
+    elif k == 6:
         line = b'function f%d() return %d end\n' % (ch.below(9), ch.below(9))
         code, ck = line * (20 + ch.below(300)), 'large_compressible'
+    else:
+        # data table with fixed-length rows: long-range repeats at distances that are multiples of the row
+        # length, chosen among the divisors of numbers around the 3120-byte window edge
+        rowlen = ch.pick(ROW_LENGTHS)
+        nrows = (3180 + ch.below(1400)) // rowlen + 1
+        rows = []
+        digits = b'0123456789abcdef'
+        for r in range(nrows):
+            body = bytes(digits[(r * 7 + i * (1 + ch.below(3)) + (i >> 2)) % 16] for i in range(rowlen - 4))
+            rows.append(b'"' + body + b'",\n')
+        if ch.chance(100):
+            rows = [rows[0]] * nrows            # identical rows: the farthest match wins ties
+        code, ck = b't={\n' + b''.join(rows) + b'}\n', 'table_rows'
     dest = ch.take(4) if ch.chance(128) else None
     return mem, modes, version, code, ck, dest
 
@@ -243,9 +263,22 @@ def semi_compressible(n, salt):
     return bytes(body[:n])
 
 
+class _SafeCompress:
+    """compress_code with any exception turned into a violation (it must compress every text)."""
+
+    @staticmethod
+    def compress_code(code):
+        from pico8.game import compress as real
+        try:
+            return real.compress_code(code)
+        except Exception as e:
+            raise Violation('compress_code raised %r on %d bytes of valid code' % (e, len(code)),
+                            {'kind': 'compress', 'code': bytes(code)}, 'compress-raises')
+
+
 def boundary_cases(salt, which):
     """Yield (label, code) around one of the limits."""
-    from pico8.game import compress
+    compress = _SafeCompress
     _patch_compress()
     if which == 'raw':
         for d in (-1, 0, 1):
@@ -380,6 +413,8 @@ def replay(case):
                 check_write(mem, case['version'], code, case['dest'], case)
     elif kind == 'convert':
         check_convert(case['seed'], case)
+    elif kind == 'compress':
+        _SafeCompress.compress_code(case['code'])
     else:
         check_write(case['mem'], case['version'], case['code'], case.get('dest'), case)
 
@@ -387,7 +422,7 @@ def replay(case):
 def vacuity(total, tier):
     msgs = []
     for lab in ('stored_raw', 'stored_compressed', 'refused', 'boundary_raw', 'boundary_compressed', 'boundary_header_edge',
-                'dest_exists', 'dest_absent', 'convert', 'code_update60'):
+                'dest_exists', 'dest_absent', 'convert', 'code_update60', 'code_table_rows'):
         if total.classes.get(lab, 0) < 1:
             msgs.append('class %s never seen' % lab)
     return msgs
